@@ -21,7 +21,7 @@ for m in "$SRC"/$GLOB/; do
   name=$(basename "$m"); id=${name%%-*}
   [ -f "$m/patch.diff" ] || continue
   git -C "$ST/repo" checkout -q -- . 
-  if ! git -C "$ST/repo" apply "$m/patch.diff" 2>/dev/null; then printf '%s\t%s\tNA\tpatch does not apply to HEAD\n' "$name" "$id" >> "$OUT"; continue; fi
+  if ! git -C "$ST/repo" apply "$m/patch.diff" 2>/dev/null && ! git -C "$ST/repo" apply -C1 "$m/patch.diff" 2>/dev/null; then printf '%s\t%s\tNA\tpatch does not apply to HEAD\n' "$name" "$id" >> "$OUT"; continue; fi
   if ! (cd "$ST/harness" && cargo build --release --offline >"$ST/build.log" 2>&1); then printf '%s\t%s\tNA\tdoes not build with hooks\n' "$name" "$id" >> "$OUT"; continue; fi
   ids="$id"; [ -f "$m/also.txt" ] && ids="$ids $(cat "$m/also.txt")"
   for c in $ids; do
